@@ -1,4 +1,5 @@
 import Memterm.Props.C07
+import Memterm.Props.C08
 import Memterm.Proofs.ModeOrder
 import Memterm.Proofs.SparseStep
 import Memterm.Proofs.Sgr
@@ -472,9 +473,18 @@ theorem effectful_false {ml : List Nat} (h : effectful ml = false) : plain ml :=
   simp only [effectful, Bool.or_eq_false_iff] at h
   exact ⟨h.1.1.1, h.1.1.2, h.1.2, h.2⟩
 
+/-- what a reset inside an SGR list resets to is the default rendition, whose reverse flag is the mode -/
+theorem sgr_reset_is_mode (s : Screen) :
+    (C08.specSgr (defaultAttr s) [0] s.cursor.attr).reverse = s.mode DECSCNM ∧
+    (C08.specSgr (defaultAttr s) [0, 1] s.cursor.attr).reverse = s.mode DECSCNM := by
+  simp [C08.specSgr, C08.specLoop, C08.specAct, defaultAttr]
+  rfl
+
 theorem C12_holds (env : Env) (cands : List Nat) (s : Screen) (c : Call) (h : Inv s) :
     propC12 cands s c (step env s c) = true := by
   cases c <;> try rfl
+  case sgr attrs =>
+    simp only [propC12, propRev, step, C08.sgr_eq_spec, beq_self_eq_true, Bool.or_true]
   case setMode ms p =>
     simp only [propC12, step, propModes, Bool.and_eq_true]
     refine ⟨⟨⟨⟨⟨?_, ?_⟩, ?_⟩, ?_⟩, ?_⟩, ?_⟩
